@@ -104,6 +104,7 @@ var writerSpecs = []writerSpec{
 		"lisp.(*LEnv).evalSExprCells": "deferred restore after argument evaluation",
 		"lisp.findAndUnquote":         "points errors from unquote at the unquoted form, restored before return",
 		"lisp.opSetUpdate":            "points the error of a failed set! at the symbol",
+		"lisp.opHandlerBind":          "locates the handler call (made with FunCall, not by evaluating a form) at the binding's handler expression",
 	}},
 	{field: "lisp.LEnv.parent", floor: 0, permitted: map[string]string{}},
 	{field: "lisp.Runtime.Stack", floor: 0, permitted: map[string]string{}, doc: "direct stores only"},
